@@ -296,9 +296,11 @@ fn run_history<L: LangExt, N: Analysis<L> + Default + 'static>(names: Vec<u32>, 
                     let h = r.eg.add(n);
                     let delta = r.eg.progress().number_of_classes - before;
                     let old = r.handle(&t);
-                    extra = format!(",\"readd\":{{\"lookup_some\":{},\"alloc_delta\":{},\"eq_old\":{},\"lookup_eq_add\":{}}}", lk.is_some(), delta,
+                    let names = |a: &AppliedId| { let mut v: Vec<String> = a.m.iter().map(|(_, v)| jstr(&r.name_of(v))).collect(); v.sort(); format!("[{}]", v.join(",")) };
+                    extra = format!(",\"readd\":{{\"lookup_some\":{},\"alloc_delta\":{},\"eq_old\":{},\"lookup_eq_add\":{},\"ret_vals\":{},\"lk_vals\":{}}}", lk.is_some(), delta,
                         match &old { Some(o) => r.eg.eq(&h, o).to_string(), None => "null".to_string() },
-                        match &lk { Some(l) => r.eg.eq(l, &h).to_string(), None => "null".to_string() });
+                        match &lk { Some(l) => r.eg.eq(l, &h).to_string(), None => "null".to_string() },
+                        names(&h), match &lk { Some(l) => names(l), None => "null".to_string() });
                 }
                 "probe" => {
                     let mut p = 1; let t = parse_term(&toks, &mut p);
